@@ -8,7 +8,7 @@ import sys, os, subprocess, json, shutil, re, tempfile
 sys.path.insert(0, '/verif/mutants')
 import corpus
 M = {m['id']: m for m in corpus.M}
-CONTROLS = "m07a m07c m08d m12e m12f m17c m17d m18a m18c m19c".split()
+CONTROLS = "m07a m07c m08d m12e m12f m17c m17d m18a m18c m19c n01 n02 n04 n09 n14 n15 n20".split()
 
 def mutated(m):
     src = open('/repo/' + m['file']).read()
